@@ -76,6 +76,11 @@ def s_part(ck, tier, rng):
         # event-loop iteration in which the master's sleep ends must not leave the master without anything to wait for
         ("oneshot", {1: dict(order=[(3, "dev"), (4, "dev")], conns=[(3, 1, 4, 1)])},
          {3: (7, 300_000_000, 2), 4: (7, 300_000_000, 0)}),
+        # an inner device beside the exposed path: its interrupt, raised while the system's tick is running, must not make
+        # the system lose what that tick exposes (device 7 is updated periodically and would see the stale value)
+        ("nested-side", {1: dict(order=[(3, "dev"), (4, 2), (7, "dev")], conns=[(3, 1, 4, 1), (4, 1, 7, 1)]),
+                         2: dict(order=[(5, "dev"), (6, "dev"), (9, "dev")], conns=[(EXT, 1, 5, 1), (5, 1, 6, 1), (6, 1, EXP, 1), (EXT, 1, 9, 1)])},
+         {3: (5, 400_000_000, 1), 5: (5, 300_000_000, 0), 6: (5, 600_000_000, 0), 9: (5, 300_000_000, 0), 7: (5, 300_000_000, 1)}),
         ("oneshot-nested", {1: dict(order=[(3, 2)], conns=[]),
                             2: dict(order=[(4, "dev"), (5, "dev")], conns=[(4, 1, 5, 1)])},
          {4: (7, 300_000_000, 2), 5: (7, 300_000_000, 0)}),
